@@ -90,4 +90,6 @@ def main(tier):
     c03.check_kernel_stores(rep, 'mad', 'P-MAD-STORE', 35)
     c03.check_kernel_stores(rep, 'mul', 'P-MUL-STORE', 2)
     check_mul_guard(rep)
+    provenance.check_undef(rep, {'ec_mad', 'ec_mul'}, 'MAD', 37)
+    provenance.check_kwidth(rep, {'ec_mad', 'ec_mul'}, 'MAD', 37)
     return rep.finish()
